@@ -112,6 +112,17 @@ func c08Reposition(c *Ctx) {
 
 func runC08(c *Ctx) {
 	c08Reposition(c)
+	c08Position(c)
+	// the cursors of the resettable readers are re-established by their Reset
+	ci := newChainIndex(c.P)
+	closeWhy := "Close ends the life of the reader; Reset is not expected to reopen it"
+	for _, s := range []resetSpec{
+		{Type: "rowGroupRows", Reset: []string{"(*rowGroupRows).Reset"}, IgnoreFns: map[string]string{"(*rowGroupRows).Close": closeWhy}},
+		{Type: "columnChunkValueReader", Reset: []string{"(*columnChunkValueReader).Reset"}, IgnoreFns: map[string]string{"(*columnChunkValueReader).Close": closeWhy, "(*rowGroupRows).Close": closeWhy}},
+	} {
+		runResetRule(c, "C08.reset", ci, s)
+	}
+	c.Min("C08.reset", 6)
 	// a reader that closes its current source while it stays in use forgets it
 	runClosedFieldRule(c, "C08.closed", nil, 2)
 	p := c.P
@@ -336,4 +347,157 @@ func asyncStickyRule(c *Ctx, rule string) {
 		}
 		c.Check(rule, "readPages:fatal-error-is-sticky", fn.Pos(), bad == token.NoPos && nphi > 0, "the error variable of the page-reading goroutine is reset to nil inside the read loop: after a fatal read error the underlying reader is in an unknown position, and a later seek would resume reading from it and return rows of the wrong page")
 	}
+}
+
+// c08Position: FilePages.SeekToRow reports success without moving the stream
+// only when it has looked at where the stream is. The page cursor alone is a
+// belief: a read that failed in the middle of a page has consumed its bytes
+// without advancing the cursor (finding F25), and an earlier seek may have
+// moved the stream while a page is still cached (finding F19). Every success
+// exit is therefore reached through a repositioning of the stream
+// (Seek/Discard/Reset on a stream field) or through a test on a value derived
+// from the stream position query (Seek(0, io.SeekCurrent)); the exit taken
+// when the chunk has no pages at all is the one exception.
+func c08Position(c *Ctx) {
+	rule := "C08.position"
+	p := c.P
+	obj := p.LookupFunc("(*FilePages).SeekToRow")
+	fp := p.LookupType("FilePages")
+	if !c.Anchor(rule, "(*FilePages).SeekToRow", obj != nil) || !c.Anchor(rule, "FilePages", fp != nil) {
+		return
+	}
+	fn := p.SSAFunc(obj)
+	streams := map[*types.Var]bool{}
+	for f := range fieldsOfStruct(fp) {
+		t := f.Type()
+		if pt, ok := t.(*types.Pointer); ok {
+			t = pt.Elem()
+		}
+		if n, ok := t.(*types.Named); ok && n.Obj().Pkg() != nil {
+			if (n.Obj().Pkg().Path() == "io" && n.Obj().Name() == "SectionReader") || (n.Obj().Pkg().Path() == "bufio" && n.Obj().Name() == "Reader") {
+				streams[f] = true
+			}
+		}
+	}
+	onStream := func(call ssa.CallInstruction) (string, bool) {
+		cc := call.Common()
+		callee := cc.StaticCallee()
+		if callee == nil || callee.Signature.Recv() == nil || len(cc.Args) == 0 {
+			return "", false
+		}
+		fs, _, _ := fieldChain(cc.Args[0])
+		if len(fs) == 0 || !streams[fs[len(fs)-1]] {
+			return "", false
+		}
+		return fnName(callee), true
+	}
+	isQuery := func(call ssa.CallInstruction) bool {
+		name, ok := onStream(call)
+		if !ok || name != "Seek" {
+			return false
+		}
+		args := call.Common().Args
+		if len(args) != 3 {
+			return false
+		}
+		off, ok1 := args[1].(*ssa.Const)
+		wh, ok2 := args[2].(*ssa.Const)
+		return ok1 && ok2 && off.Value != nil && off.Value.ExactString() == "0" && wh.Value != nil && wh.Value.ExactString() == "1"
+	}
+	// values derived from the position query
+	derived := map[ssa.Value]bool{}
+	var work []ssa.Value
+	cut := map[*ssa.BasicBlock]bool{} // blocks that reposition or test the position
+	nq := 0
+	allCalls(fn, false, func(_ *ssa.Function, call ssa.CallInstruction) {
+		if isQuery(call) {
+			nq++
+			if v := call.Value(); v != nil {
+				derived[v] = true
+				work = append(work, v)
+			}
+			return
+		}
+		if name, ok := onStream(call); ok && (name == "Seek" || name == "Discard" || name == "Reset") {
+			cut[call.Block()] = true
+		}
+	})
+	for len(work) > 0 {
+		v := work[len(work)-1]
+		work = work[:len(work)-1]
+		if v.Referrers() == nil {
+			continue
+		}
+		for _, r := range *v.Referrers() {
+			switch x := r.(type) {
+			case *ssa.Extract, *ssa.BinOp, *ssa.Convert, *ssa.ChangeType, *ssa.Phi, *ssa.UnOp:
+				xv := x.(ssa.Value)
+				if !derived[xv] {
+					derived[xv] = true
+					work = append(work, xv)
+				}
+			case *ssa.Store:
+				if al, ok := x.Addr.(*ssa.Alloc); ok {
+					for _, lr := range *al.Referrers() {
+						if u, ok := lr.(*ssa.UnOp); ok && !derived[u] {
+							derived[u] = true
+							work = append(work, u)
+						}
+					}
+				}
+			case *ssa.If:
+				cut[x.Block()] = true
+			}
+		}
+	}
+	// the chunk without pages: true edge of len(...) == 0
+	emptyEdge := map[[2]*ssa.BasicBlock]bool{}
+	for _, b := range fn.Blocks {
+		if len(b.Instrs) == 0 {
+			continue
+		}
+		ifi, ok := b.Instrs[len(b.Instrs)-1].(*ssa.If)
+		if !ok {
+			continue
+		}
+		bo, ok := ifi.Cond.(*ssa.BinOp)
+		if !ok || bo.Op != token.EQL {
+			continue
+		}
+		if call, ok := bo.X.(*ssa.Call); ok {
+			if bi, ok := call.Call.Value.(*ssa.Builtin); ok && bi.Name() == "len" {
+				if k, ok := bo.Y.(*ssa.Const); ok && k.Value != nil && k.Value.ExactString() == "0" {
+					emptyEdge[[2]*ssa.BasicBlock{b, b.Succs[0]}] = true
+				}
+			}
+		}
+	}
+	c.Check(rule, "SeekToRow queries the stream position", fn.Pos(), nq > 0, "FilePages.SeekToRow never asks the stream where it is (Seek(0, io.SeekCurrent)): its shortcuts rest on the page cursor alone")
+	reach := reachableAvoidingSet(fn.Blocks[0], cut, emptyEdge)
+	var bad []string
+	for _, ret := range returnsOf(fn) {
+		if !reach[ret.Block()] || cut[ret.Block()] {
+			continue
+		}
+		ev, _ := retResult(ret, 0)
+		if ev != nil && !isNilConst(ev) {
+			// a non-nil error constant/global or a fresh error: failure exit
+			onlyFail := true
+			for _, o := range Origins(ev, OriginOpts{}) {
+				if o.Kind == OrgConst {
+					if k, ok := o.Val.(*ssa.Const); ok && k.IsNil() {
+						onlyFail = false
+					}
+				}
+			}
+			if onlyFail {
+				continue
+			}
+		}
+		bad = append(bad, p.Pos(ret.Pos()))
+	}
+	sort.Strings(bad)
+	c.Check(rule, "SeekToRow succeeds without moving the stream only after looking at its position", fn.Pos(), len(bad) == 0,
+		"FilePages.SeekToRow can return success ("+strings.Join(bad, ", ")+") without repositioning the stream and without a test on the stream position: when the page cursor and the stream disagree (a read failed half way through a page, an earlier seek moved the stream) the next ReadPage returns the rows of another page without error")
+	c.Min(rule, 2)
 }
